@@ -28,8 +28,9 @@ RULE = ('random call histories on one decoder state (decode of real-encoder pack
         'transition call) and the cross-fades, observed through the arithmetic macros of their inline loops; '
         'a case is distinct by (operation, outcome class)')
 NOT_COVERED = [
-    'index arithmetic INSIDE silk_Decode / celt_decode_with_ec_dred / resamplers (oracles with monitored contracts; '
-    'reached only by sanitizer-instrumented exploration)',
+    'index arithmetic INSIDE silk_Decode / resamplers and, of celt_decode_with_ec_dred, everything except the decoder-state '
+    'layout, the decode_mem shift and the post-filter (celt_synthesis / MDCT extents, deemphasis, celt_decode_lost, '
+    'prefilter_and_fold: oracles with monitored contracts, reached only by sanitizer-instrumented exploration)',
     'finiteness of produced samples (float DSP): searched on the implementation only',
     'range decoder reads (C08) and the symbol layers (C03)',
     'projection decoder matrix multiply VALUES (C10); its index ranges are covered by msDecode_writes',
@@ -42,8 +43,14 @@ ASSUMPTIONS = [
     'and advances ec_tell by at most logp; ec_dec_uint(ft) returns a value < ft; ec_tell >= 1',
     'float build with VAR_ARRAYS, no DRED / deep PLC / OSCE (the configuration of the baseline build)',
 ]
-TRUSTED = ['oracle contracts for silk_Decode / celt_decode_with_ec_dred / ec_dec_bit_logp / ec_dec_uint listed under assumptions']
-UNPROVED = ['projection matrix multiply values (C10 proves matrix_short_saturates; here only its index ranges: msDecode_writes)',
+TRUSTED = ['oracle contracts for silk_Decode / celt_decode_with_ec_dred / ec_dec_bit_logp / ec_dec_uint listed under assumptions',
+           'OpusModel/CeltIdx.lean is a hand transcription of index expressions (celt/celt_decoder.c:1024-1028, :1064-1067, '
+           ':1258-1260, :1295-1319, celt/celt.c:163-258); supported by the celtidx tie: call arguments recorded inside the real '
+           'decoder, comb_filter extents measured on the compiled function by NaN propagation (dead loads are not measurable)']
+UNPROVED = ['CELT interior index bridge, first milestone only: state layout, decode_mem shift and post-filter are proved; '
+            'celt_synthesis / clt_mdct_backward extents, deemphasis with downsampling, celt_decode_lost (pitch search, exc / LPC '
+            'buffers, extrapolation, TDAC), noise PLC and prefilter_and_fold are not yet modelled',
+            'projection matrix multiply values (C10 proves matrix_short_saturates; here only its index ranges: msDecode_writes)',
             'int_ranges is a list of range lemmas for the expressions the C code forms, stated over the guaranteed operand ranges; '
             'the model itself computes with unbounded Int (no wrap32 instrumentation), and ec_tell < 2^30 is a hypothesis',
             'decodeNative_depends_on_parse relates two runs whose DSP oracles agree up to the frame-offset shift (OracleShift); '
@@ -60,7 +67,9 @@ LEVEL_TEXT = ('proof of the control skeleton, partial for the property: for ever
               'three format wrappers; the multistream / projection decoder with its REAL per-stream calls (composition with the '
               'single-stream skeleton, the validation pass and C10 routing): documented results, never INTERNAL_ERROR, all stream '
               'states keep the invariant, every per-stream access inside buf / its scratch buffer, every copy-out index inside '
-              'the caller buffer; 32-bit range lemmas for the skeleton arithmetic. The SILK/CELT synthesis interior and sample '
+              'the caller buffer; 32-bit range lemmas for the skeleton arithmetic; CELT interior (index bridge, first part): the arrays behind '
+              'the decoder struct tile opus_custom_decoder_get_size, and for every legal frame size, post-filter period in {0} u [15,1024) '
+              'and gain every index the post-filter comb_filter calls and the decode_mem shift touch lies inside its channel buffer. The SILK/CELT synthesis interior and sample '
               'finiteness are not modelled (sanitizer-instrumented search only)')
 LEVEL_NOTE = ('trusted: Lean kernel; oracle contracts (monitored by the harness wrappers on every explored call); the '
               'correspondence harness (#include of src/opus_decoder.c with the DSP entry points renamed to recording wrappers) '
